@@ -291,6 +291,9 @@ func runServerBatchExecution(t *testing.T, seed int64, log *traceLog) {
 						if peer == nil {
 							peer = []any{"?", 0}
 						}
+						if op.a["c"] != c {
+							bad(fmt.Sprintf("a datagram for the relayed address of %v was delivered to %s", op.a["c"], c), "C04", "C02")
+						}
 						op.obs = append(op.obs, map[string]any{"k": "toclient", "to": c, "via": o["via"], "n": toInt(o["n"]), "peer": peer, "pay": id})
 					default:
 						bad(fmt.Sprintf("%s received %v", c, o["why"]), "C19", "C05")
@@ -311,6 +314,9 @@ func runServerBatchExecution(t *testing.T, seed int64, log *traceLog) {
 						bad(fmt.Sprintf("peer %s received a datagram from %v that no operation of this round explains (%v)", p, pk.From, id), "C01", "C05")
 
 						continue
+					}
+					if op.a["a"] != "PeerData" && op.a["c"] != owner {
+						bad(fmt.Sprintf("data submitted by %v left from the relayed address of %s", op.a["c"], owner), "C04", "C01")
 					}
 					op.obs = append(op.obs, map[string]any{"k": "topeer", "from": owner, "to": []any{w.peerKey[p].ip, w.peerKey[p].port}, "pay": id})
 				}
